@@ -46,6 +46,13 @@ def _simplify_step(st):
             else:
                 s["a"]["ns"] = [len(sub)]
             yield s
+    if st["op"] == "concurrent" and st.get("sched"):
+        # fewer thread switches, fewer requests
+        for ei, e in enumerate(st["sched"]):
+            for sub in drop_chunks(e.get("switches", [])):
+                s = copy.deepcopy(st)
+                s["sched"][ei]["switches"] = sub
+                yield s
     if st["op"] == "pollute" and st.get("n", 0) > 1:
         s = copy.deepcopy(st)
         s["n"] = 1
